@@ -576,6 +576,7 @@ func (e *Enc) storeAt(st *State, p Val, v Val) {
 			h2 := e.heapGet(st, k2, ArrS(IntS, ArrS(is, base)))
 			st.H[k2] = e.define(Store(h2, r2, v.L[i]), "H")
 			e.markWrite(k2)
+			e.checkFreshWrite(k2, r2)
 			continue
 		}
 		var h T
@@ -603,7 +604,10 @@ func (e *Enc) storeAt(st *State, p Val, v Val) {
 			nv = Store(chain[j], keys[j], nv)
 		}
 		st.H[key] = e.define(nv, "H")
-		e.markWrite(key)
+		e.markWriteRef(key)
+		if space != "G" {
+			e.checkFreshWrite(key, p.L[0])
+		}
 		if e.writes != nil && space != "G" {
 			// remember which object was written (used to frame loop havocs)
 			if e.writeRefs == nil {
